@@ -295,6 +295,34 @@ impl Prop for C08 {
         bases.sort();
         // bases whose candidates end in ৎ / ং / a vowel, so that all joining cells are reached in every tier
         let mut special: Vec<String> = vec!["hothat".into(), "ebong".into(), "ami".into(), "tumi".into(), "bangla".into(), "sesh".into(), "amar".into(), "jogot".into(), "rong".into(), "shong".into(), "kingbodonti".into()];
+        // words ending in ৎ / ng with another one earlier (only the last one changes when a suffix is joined): all in
+        // thorough, "hongkong" plus two chosen by the seed in quick (with a third of the suffixes there)
+        let nfull = special.len();
+        {
+            let mut dbl: Vec<String> = o.tables.values().flatten().filter(|w| {
+                let cs: Vec<char> = w.chars().collect();
+                matches!(cs.last(), Some('ৎ') | Some('ং')) && cs[..cs.len() - 1].iter().any(|c| *c == 'ৎ' || *c == 'ং')
+            }).cloned().collect();
+            dbl.sort();
+            dbl.dedup();
+            out.max("dictionary_words_with_two_khanda_ta_or_anusvara", dbl.len() as u64);
+            special.push("hongkong".into());
+            // the oracle match of a spelling scans the dictionary: in quick only the words chosen by the seed are romanised
+            let take = if thorough { dbl.len() } else { 4.min(dbl.len()) };
+            let mut added = 0;
+            for k in 0..take {
+                let w = &dbl[(env.seed as usize * 4 + k) % dbl.len()];
+                if let Some(r) = romanise(w) {
+                    if r.len() <= 14 && !special.contains(&r) && o.is_dict_match(&r, w) {
+                        special.push(r);
+                        added += 1;
+                        if !thorough && added == 2 {
+                            break;
+                        }
+                    }
+                }
+            }
+        }
         special.extend(c.user.keys().cloned());
         let mut r2 = Rng::new(env.seed ^ 0xC08);
         let guided: Vec<String> = dict_guided(&mut o, &mut r2, if thorough { 1500 } else { 64 }).into_iter().map(|(s, _)| s).collect();
@@ -316,7 +344,7 @@ impl Prop for C08 {
             if !env.mine(i) {
                 continue;
             }
-            let sfx_here: Vec<String> = if thorough || i < special.len() { sfx.clone() } else { sfx.iter().enumerate().filter(|(j, _)| (j + i) % 3 == 0).map(|(_, s)| s.clone()).collect() };
+            let sfx_here: Vec<String> = if thorough || i < nfull || (i >= nfull + 3 && i < special.len()) { sfx.clone() } else { sfx.iter().enumerate().filter(|(j, _)| (j + i) % 3 == 0).map(|(_, s)| s.clone()).collect() };
             out.begin_case(|| json!({"kind": "base+suffix", "base": b}));
             if c.user.contains_key(b) {
                 walk_base(&mut o, &userctx.0, Some(&c.user), "", b, "", &sfx_here, out, &mut t);
